@@ -323,9 +323,12 @@ type plantedRec struct {
 }
 
 type graphRec struct {
-	In  *input
-	Obs obsT
-	Ref refResult
+	In         *input
+	Obs        obsT
+	Ref        refResult
+	Spliced    *input // the same text with the included files written in place
+	SplicedObs *obsT
+	SpliceSame bool
 }
 
 func cksum(s string) uint64 {
